@@ -10,11 +10,13 @@ enum { C_UNTIL, C_FIXED };
 typedef struct {
 	int L, k, n;		/* buffer length, start index of both cursors, bytes the producer sends */
 	int pmode, cmode, m;	/* m: get attempts of a C_FIXED consumer */
+	int fill;		/* unread bytes already in the ring when the scenario starts (put sequentially after positioning the cursors) */
 	int topo;		/* 0 two threads; 1 consumer main + producer interrupts; 2 producer main + consumer interrupts */
 } c05_cfg;
 extern c05_cfg C5;
 extern ringbuf_t c5_rb;
-extern uint8_t c5_arena[64];
+#define C5_ARENA_MAX (16 + 65600 + 48)	/* room for rings longer than 65536 bytes (16-bit index widths) */
+extern uint8_t c5_arena[C5_ARENA_MAX];
 #define C5_STORE (c5_arena + 16)
 
 uint8_t c5_value(int i);
